@@ -12,7 +12,7 @@ from __future__ import annotations
 from itertools import product
 from typing import Any, Dict, List, Optional, Tuple
 
-from mc.core import Acc, Ctx, HarnessError
+from mc.core import Acc, Ctx, HarnessError, Timeout, deadline
 from mc.search import canon_queue
 
 LEVEL = "model_checking"
@@ -172,7 +172,7 @@ class Run:
                     self.fail("bad-packet", e)
             else:
                 raise HarnessError(f"unknown op {op}")
-        except (HarnessError, KeyboardInterrupt):
+        except (HarnessError, KeyboardInterrupt, Timeout):
             raise
         except Exception as ex:  # noqa: BLE001
             self.fail("exception", f"{type(ex).__name__}: {ex} in {op}")
@@ -194,10 +194,14 @@ def alphabet(nlabels: int) -> List[Tuple]:
 
 def replay_history(packcfg, nlabels, hist) -> Run:
     r = Run(packcfg, nlabels)
-    for op in hist:
-        r.apply(op)
-        if r.error:
-            break
+    try:
+        with deadline(5):
+            for op in hist:
+                r.apply(op)
+                if r.error:
+                    break
+    except Timeout:
+        r.fail("non-termination", f"an operation of {list(hist)} did not return within the horizon")
     return r
 
 
